@@ -579,7 +579,7 @@ def aliases : List Alias := [
   ⟨11, 5, 25, 6, 6, 26, false, false⟩,
   ⟨11, 17, 27, 19, 19, 28, false, false⟩,
   ⟨11, 21, 29, 22, 22, 30, false, false⟩,
-  ⟨11, 40, 32, 41, 41, 272, false, false⟩,
+  ⟨11, 40, 32, 41, 41, 272, false, true⟩,
   ⟨11, 42, 33, 43, 43, 34, false, false⟩,
   ⟨11, 48, 35, 50, 50, 37, false, false⟩,
   ⟨11, 49, 36, 51, 51, 38, false, false⟩,
